@@ -150,7 +150,7 @@ Proof.
       assert (Hin : sector + extent_blocks version (N.of_nat (length (r_key r))) (N.of_nat (length (r_value r))) <= total).
       { fold (need_of version r). lia. }
       cbn [iblocks].
-      rewrite (scan_step_accepts_encoded_record version sector r K0 Hf V0 Vmax Ts Ex c total st jl _ Hrw Kmax Hin st4
+      rewrite (scan_step_accepts_encoded_record version sector r K0 Hf V0 Vmax Ts Ex c total st jl _ Kmax Hin st4 (or_introl Hrw)
                  (Hfresh r (or_introl eq_refl)) G).
       cbn [bind]. fold (need_of version r). destruct (N.leb_spec (sector + need_of version r) sector); [lia|].
       set (st1 := mkrs (idx_upsert (mkentry (r_key r) (r_ts r) (if has_expiry version then r_exp r else 0) (N.of_nat (length (r_value r))) sector) (rs_idx st4))
@@ -201,7 +201,7 @@ Proof.
       * intros b Hb [[]|Hc]. exact (Beyond b Hb Hc).
     + (* a free block *)
       cbn [recs_of isize iblocks] in *. cbn [app].
-      rewrite (scan_step_skips_a_zero_block c version total sector st jl _ Hrw).
+      rewrite (scan_step_skips_a_zero_block c version total sector st jl _ (or_introl Hrw)).
       cbn [bind]. destruct (N.leb_spec (sector + 1) sector); [lia|].
       assert (SI1 : SInv total (sector + 1) st) by (destruct SI; constructor; try assumption; lia).
       destruct (IH f (sector + 1) st Ht Hd Hfresh SI1 Hskip ltac:(lia) Hf')
